@@ -93,3 +93,30 @@ Proof.
   destruct (assign_separates pick should prefix_globals Hp bs rg x1 x2 n s Hwf Hnd Hx1 Hx2 Hne F1 F2 S1 S2) as [[A _] [B _]].
   auto.
 Qed.
+
+(* ---- reservation_scope covers every walk, by construction ---- *)
+Lemma rscope_covers fuel par owner sites s l :
+  In s sites -> chain fuel par s owner = Some l -> forall m, In m l -> In m (rscope fuel par owner sites).
+Proof.
+  intros Hs Hc m Hm. unfold rscope. right. apply in_flat_map. exists s. split; [exact Hs|]. rewrite Hc. exact Hm.
+Qed.
+Lemma rscope_owner fuel par owner sites : In owner (rscope fuel par owner sites).
+Proof. left. reflexivity. Qed.
+
+(* resolution is preserved for every reference site of a binding whose reservation scope is the one renamer.reservation_scope builds *)
+Theorem resolution_preserved_by_reservation par bs :
+  separated bs -> unique_names bs -> unique_ids bs ->
+  forall fuel (sites : rb -> list N),
+    (forall b, In b bs -> forall m, In m (rscope fuel par (r_owner b) (sites b)) -> In m (r_scope b)) ->
+    forall ns b n0 n,
+      In b bs -> In ns (sites b) -> r_orig b = Some n0 -> r_final b = Some n ->
+      chain fuel par ns (r_owner b) <> None ->
+      resolve fuel par bs r_orig ns n0 = Some (r_id b) ->
+      resolve fuel par bs r_final ns n = Some (r_id b).
+Proof.
+  intros Hsep Hun Hid fuel sites Hsc ns b n0 n Hb Hns Ho Hf Hch Hres.
+  destruct (chain fuel par ns (r_owner b)) as [l|] eqn:E; [|contradiction].
+  eapply (resolution_preserved par bs Hsep Hun Hid); eauto.
+  - intros c Hc. apply (Hsc c Hc). apply rscope_owner.
+  - intros m Hm. apply (Hsc b Hb). eapply rscope_covers; eauto.
+Qed.
